@@ -63,8 +63,9 @@ def c19_order(p1: int, p2: int, p3: int, w1: int, w2: int, n1: int, n2: int, au:
         ws = [w.mk_watcher(nm, numprocesses=nump[nm], warmup_delay=warm[nm], priority=prios[nm], autostart=auto[nm],
                            graceful_timeout=0.2, hooks=hooks) for nm in names]
         try:
-            if S.get('dmax', 0) > 0 and d > 0:
-                k.injections.append({'at_call': d, 'victim': ('nth', 0), 'status': core.status_signal(9)})
+            victim = ('newest', 0) if S.get('victim') == 'newest' else ('nth', 0)
+            if S.get('dmax', 0) > 0 and d > 0 and trig == 'boot':
+                k.injections.append({'at_call': d, 'victim': victim, 'status': core.status_signal(9)})
             if trig == 'boot':
                 t_begin = w.clock.now
                 w.mk_arbiter(ws, check_delay=0.2, warmup_delay=gw)
@@ -78,6 +79,8 @@ def c19_order(p1: int, p2: int, p3: int, w1: int, w2: int, n1: int, n2: int, au:
                     w.call('stop', waiting=True, max_time=30.0)
                 w.run_for(0.05)
                 t_begin = w.clock.now
+                if S.get('dmax', 0) > 0 and d > 0:
+                    k.injections.append({'at_call': k.calls + d, 'victim': victim, 'status': core.status_signal(9)})
                 if trig == 'start_all':
                     r = w.call('start', waiting=True, max_time=60.0)
                     started = [nm for nm in names if auto[nm]]
@@ -212,14 +215,16 @@ def plan(tier):
             sh.append({'trig': trig, 'gw': 0, 'full': True})
             sh.append({'trig': trig, 'gw': 0.3, 'dmax': 20})
             sh.append({'trig': trig, 'gw': 0, 'dmax': 20})
+            sh.append({'trig': trig, 'gw': 0, 'dmax': 20, 'victim': 'newest'})
     sh.append({'trig': 'boot', 'gw': 0, 'hookcost': 0.15, 'pace': True})
     if q:
         sh.append({'trig': 'boot', 'gw': 0.3, 'dmax': 12})
+        sh.append({'trig': 'boot', 'gw': 0, 'dmax': 12, 'victim': 'newest'})
         sh.append({'trig': 'start_all', 'gw': 0, 'dmax': 12})
     return [
         Cond('c19_order', shards=sh, budget=300 if q else 2400, twins=2,
              bounds={'p1,p2,p3': 'R: all integers (ties included)', 'w1,w2': 'S: warm-up %r' % (WARM,), 'n1': 'S[1,3]', 'n2': 'S[1,2]',
                      'au': 'S: which watcher has autostart off', 'trigger': 'S%r' % (TRIGGERS,), 'global warm-up': 'S{0, 0.3}',
-                     'd': 'R[0,dmax] kernel call at which the first live worker dies',
+                     'd': 'R[0,dmax] kernel call (of the sequence) at which the oldest / the newest live worker dies',
                      'quick': 'w1 in {0,0.5}, w2 = 0.2, n1 <= 2, n2 = 1, autostart off for at most wb; thorough: the full menus'}),
     ]
